@@ -495,6 +495,9 @@ def main():
         mc = model.get((sc.sid, -1))
         if mc and ok_:
             j = model_prefix(sc, kk)
+            if j not in mc["P"]:
+                model_fail(sc, "%s before call %s of %s: the real flush makes more model-relevant calls (%d) than flush_steps has" % (what, k, sc.op, j), {"crash_point": k})
+                continue
             mcls, mtm = mc["P"][j]
             real_tm = []
             # temp file of fragment n (in creation order) and its size
